@@ -73,6 +73,13 @@ Check C08_notifications_independent_of_response_delivery : forall cfg brqs ost,
   map fst (snd (run_b cfg ost brqs)) =
     map (fun x : (rrequest * bool) * (rresp * list event) => mask (snd (fst x)) (fst (snd x)))
         (combine brqs (snd (run cfg ost (map fst brqs)))).
+Check C08_ledger_independent_of_subscribers : forall cfg srqs ost,
+  fst (run_s cfg ost srqs) = fst (run cfg ost (map fst srqs)) /\
+  map fst (snd (run_s cfg ost srqs)) = map fst (snd (run cfg ost (map fst srqs))) /\
+  map snd (snd (run_s cfg ost srqs)) =
+    map (fun x : (rrequest * bool) * (rresp * list event) =>
+           if snd (fst x) then snd (snd x) else [])
+        (combine srqs (snd (run cfg ost (map fst srqs)))).
 Check C08_queries : forall cfg st t,
   let st1 := tick cfg st t in
   run_request cfg (Some st) (mkRq t KSnapshot) = (Some st1, PSnapshot (s_bals st1) (s_open st1) (s_canc st1), []) /\
